@@ -1,17 +1,26 @@
 //! vnative <command> [args]      (seed for every random choice: env VERIF_SEED)
 //!   kernels all|<engine> <n>    (symbol, log_m) pairs through Engine::mul: all 65536 symbols x n values of log_m (65536 = exhaustive)
-//!   engines <n>                 n random configurations: every engine vs NoSimd on encode, decode, mul, eval_poly, fft/ifft (bounded)
+//!   engines <n>                 every engine (naive, ssse3, avx2, default) vs NoSimd: n random configurations on encode / decode, a fixed list of small
+//!                               configurations (2^odd decoder work areas) with a missing original, Engine::mul on multi-block buffers, eval_poly, random
+//!                               fft/ifft, and a deterministic fft/ifft sweep: sizes 2..128, pos 0/3, every small skew_delta + the table end, 1/2 blocks,
+//!                               truncated sizes (fft: only the specified shards are compared; ifft: truncated input zeroed) (bounded)
 //!   sizes <max>                 every even shard size 2..=max: lengths, slot independence with the documented placement, round trip
-//!   oneshot <n>                 n random valid and invalid sessions: one-shot encode()/decode() vs the streaming API, errors included
-//!   linearity <n>               n random cases: additivity, zero, scalar multiples (independent field arithmetic)
+//!   oneshot <n>                 n random valid and invalid sessions: one-shot encode()/decode() vs the streaming API, errors included; half of them
+//!                               through iterators that are not exact-size; fixed no-recovery sessions (surplus / duplicate / out-of-range originals)
+//!   linearity <n>               n random and structured cases on every engine: additivity, zero, scalar multiples (independent field arithmetic),
+//!                               all-zero second round on the same encoder object
+//!   histories <n>               n random multi-round histories on ONE reused object vs fresh objects, every codec layer: resets, implicit resets,
+//!                               moved work spaces, abandoned rounds, failing calls in between; results never depend on the past (bounded)
 //!   alloc <n>                   n rounds / non-growing resets under a counting allocator: no shard-proportional allocation
 //!   roundtrip both <s> all      every subset with >= k members, every (k, r) with k + r <= s, high, low and default codec
 //!   kernels <engine>            exhaustive: every (symbol, log_m) pair through Engine::mul of the real engine, every lane
-//!   tables                      exhaustive: exp/log/skew/mul16/log_walsh against an independent recomputation
+//!   tables [skew]               exhaustive: skew (closed form, all 65535 entries; `tables skew` = only this), log, exp/log, mul16, mul128,
+//!                               log_walsh (all 65536 rows) against an independent recomputation
 //!   closedform <rate> <kmax> <rmax>   encoder on basis vectors vs the scaled-Cauchy closed form (independent field arithmetic)
-//!   roundtrip <rate> <k> <r> <seed> <subsets|all>   decode every / sampled subset(s)
-//!   defects                     the three reproductions of DESIGN section 9
+//!   defects [all|D1|D2|D3]      the three reproductions of DESIGN section 9
 //! Output: lines `OK <what> <count>` or `FAIL <what> <detail>`; exit 0 / 1.
+//! Trouble outside the oracle - a panic or an unexpected Err while a stand-in only sets up its scenario - prints `PANIC <message>` and exits 3;
+//! for defects, roundtrip, histories and oneshot (valid use never fails / never panics is part of what they check) it is a `FAIL` line and exit 1.
 use reed_solomon_simd::engine::*;
 use reed_solomon_simd::rate::*;
 use reed_solomon_simd::*;
@@ -175,9 +184,28 @@ fn kernels_n<E: Engine + Sync>(name: &str, e: &E, f: &Field, n: usize) -> bool {
     true
 }
 
+/// SKEW[j], every j in 0..65535, against the closed form: m = trailing ones of j, r = j + 1 - 2^m,
+/// SKEW[j] = dlog( s_m(r) / s_m(2^m) ) with s_m(x) = prod_{v < 2^m} (x ^ v) in Cantor-index symbols, dlog(0) = 65535
+fn tables_skew(f: &Field) -> bool {
+    let skew = &*reed_solomon_simd::engine::tables::SKEW;
+    let dlog = |x: u16| if x == 0 { 65535u32 } else { f.log[f.to_poly[x as usize] as usize] };
+    let mut den = [0u32; 16]; for m in 0..16 { den[m] = dlog(s_m(f, 1 << m, 1 << m)); }
+    for j in 0..65535usize {
+        let m = j.trailing_ones() as usize; let r = j + 1 - (1 << m);
+        let num = dlog(s_m(f, 1 << m, r));
+        let want = if num == 65535 { 65535 } else { (num + 65535 - den[m]) % 65535 };
+        if skew[j] as u32 != want { println!("FAIL tables skew j={} m={} r={} got={} want={}", j, m, r, skew[j], want); return false; }
+    }
+    println!("OK tables skew all 65535 entries (exhaustive)");
+    true
+}
+
 fn tables(f: &Field) -> bool {
     use reed_solomon_simd::engine::tables::*;
+    if !tables_skew(f) { return false; }
     let exp = &*EXP_LOG.exp; let log = &*EXP_LOG.log;
+    // log is the discrete logarithm (base 0x0002) of the polynomial representation of every Cantor-index symbol
+    for x in 0..65536usize { let want = if x == 0 { 65535 } else { f.log[f.to_poly[x] as usize] }; if log[x] as u32 != want { println!("FAIL tables log x={} got={} want={}", x, log[x], want); return false; } }
     // exp/log multiply correctly for every (symbol, log_m) pair
     for m in 0..65536usize { for x in (0..65536usize).step_by(1) {
         let got = if x == 0 { 0 } else { let s = log[x] as u32 + m as u32; exp[((s + (s >> 16)) & 0xffff) as usize] };
@@ -190,14 +218,14 @@ fn tables(f: &Field) -> bool {
         let p = f.mul_log((n << (4 * k)) as u16, m as u16);
         let lo = (m128[m].lo[k] >> (8 * n)) as u8; let hi = (m128[m].hi[k] >> (8 * n)) as u8;
         if lo != p as u8 || hi != (p >> 8) as u8 { println!("FAIL tables mul128 log_m={} k={} n={}", m, k, n); return false; } } } }
-    // LOG_WALSH = Walsh-Hadamard transform (mod 65535) of LOG with entry 0 cleared, by the defining sum on a sample of rows
-    let lw = &*LOG_WALSH; let mut rng = Rng::new(seed());
-    for t in 0..512 { let k = if t < 4 { [0usize, 1, 65535, 32768][t] } else { rng.below(65536) };
-        let mut acc: i64 = 0;
-        for j in 1..65536usize { let v = log[j] as i64; if (j & k).count_ones() % 2 == 0 { acc += v } else { acc -= v } }
-        let want = acc.rem_euclid(65535); let got = lw[k] as i64 % 65535;
+    // LOG_WALSH = Walsh-Hadamard transform (residues mod 65535; 0 and 65535 both stand for 0) of LOG with entry 0 cleared:
+    // every row, by a plain O(n log n) transform over i64
+    let lw = &*LOG_WALSH;
+    let mut w: Vec<i64> = (0..65536usize).map(|j| if j == 0 { 0 } else { log[j] as i64 }).collect();
+    let mut h = 1; while h < 65536 { for i in (0..65536).step_by(2 * h) { for j in i..i + h { let (a, b) = (w[j], w[j + h]); w[j] = a + b; w[j + h] = a - b; } } h *= 2; }
+    for k in 0..65536usize { let want = w[k].rem_euclid(65535); let got = lw[k] as i64 % 65535;
         if want != got { println!("FAIL tables log_walsh k={} got={} want={}", k, got, want); return false; } }
-    println!("OK tables exp/log 2^32 pairs, mul16, mul128 all rows, log_walsh 512 rows");
+    println!("OK tables skew, log, exp/log 2^32 pairs, mul16, mul128 all rows, log_walsh all 65536 rows (exhaustive)");
     true
 }
 
@@ -225,50 +253,109 @@ fn roundtrip(s: usize) -> bool {
     true
 }
 
+/// runs the block once per available engine: $name is its name, $mk() makes a fresh engine value of its type
+macro_rules! each_engine { ($name:ident, $mk:ident, $body:block) => {{
+    { let $name = "nosimd"; let $mk = || NoSimd::new(); $body }
+    { let $name = "naive"; let $mk = || Naive::new(); $body }
+    #[cfg(target_arch = "x86_64")]
+    { if is_x86_feature_detected!("ssse3") { let $name = "ssse3"; let $mk = || Ssse3::new(); $body } }
+    #[cfg(target_arch = "x86_64")]
+    { if is_x86_feature_detected!("avx2") { let $name = "avx2"; let $mk = || Avx2::new(); $body } }
+    { let $name = "default"; let $mk = || DefaultEngine::new(); $body }
+}} }
+/// the same engines as objects, NoSimd (the reference) first
+fn engine_list() -> Vec<(&'static str, Box<dyn Engine>)> {
+    let mut v: Vec<(&'static str, Box<dyn Engine>)> = vec![("nosimd", Box::new(NoSimd::new())), ("naive", Box::new(Naive::new()))];
+    #[cfg(target_arch = "x86_64")]
+    { if is_x86_feature_detected!("ssse3") { v.push(("ssse3", Box::new(Ssse3::new()))); } if is_x86_feature_detected!("avx2") { v.push(("avx2", Box::new(Avx2::new()))); } }
+    v.push(("default", Box::new(DefaultEngine::new())));
+    v
+}
+fn shuffle<T>(rng: &mut Rng, v: &mut [T]) { for i in (1..v.len()).rev() { let j = rng.below(i + 1); v.swap(i, j); } }
+fn rand_blocks(rng: &mut Rng, n: usize) -> Vec<[u8; 64]> { (0..n).map(|_| { let mut x = [0u8; 64]; for b in x.iter_mut() { *b = rng.next() as u8; } x }).collect() }
+
+/// one configuration on every engine: encode vs NoSimd, decode of a sufficient subset (miss: at least one original is missing) vs the data
+fn engines_cfg(rng: &mut Rng, c: Codec, k: usize, r: usize, sb: usize, miss: bool) -> Result<u64, String> {
+    let mut cnt = 0u64;
+    let data = rand_data(rng, k, sb);
+    let base = enc_with(c, NoSimd::new(), k, r, &data).unwrap();
+    let (o, rc): (Vec<(usize, Vec<u8>)>, Vec<(usize, Vec<u8>)>) = if miss {
+        let mut oi: Vec<usize> = (0..k).collect(); shuffle(rng, &mut oi); let mut ri: Vec<usize> = (0..r).collect(); shuffle(rng, &mut ri);
+        let m = 1 + rng.below(k.min(r)); let extra = if rng.below(2) == 0 { 0 } else { rng.below(r - m + 1) };
+        (oi[m..].iter().map(|&i| (i, data[i].clone())).collect(), ri[..m + extra].iter().map(|&j| (j, base[j].clone())).collect())
+    } else {
+        let mut idx: Vec<usize> = (0..k + r).collect(); shuffle(rng, &mut idx); let take = &idx[..k];
+        (take.iter().filter(|&&i| i < k).map(|&i| (i, data[i].clone())).collect(), take.iter().filter(|&&i| i >= k).map(|&i| (i - k, base[i - k].clone())).collect())
+    };
+    let missing: Vec<usize> = (0..k).filter(|i| !o.iter().any(|x| x.0 == *i)).collect();
+    let at = format!("{:?} k={} r={} sb={} originals={:?} recovery={:?}", c, k, r, sb, o.iter().map(|x| x.0).collect::<Vec<_>>(), rc.iter().map(|x| x.0).collect::<Vec<_>>());
+    each_engine!(name, mk, {
+        if enc_with(c, mk(), k, r, &data).unwrap() != base { return Err(format!("encode {} vs nosimd {}", name, at)); }
+        let d = dec_with(c, mk(), k, r, sb, &o, &rc).unwrap();
+        if d.iter().map(|x| x.0).collect::<Vec<_>>() != missing || d.iter().any(|(i, s)| *s != data[*i]) { return Err(format!("decode {} wrong {}", name, at)); }
+        cnt += 2;
+    });
+    Ok(cnt)
+}
+
+/// one fft / ifft call on every engine vs NoSimd, compared where the contract specifies the result
+fn fft_case(es: &[(&'static str, Box<dyn Engine>)], init: &[[u8; 64]], cntm: usize, len: usize, inv: bool, pos: usize, size: usize, trunc: usize, delta: usize) -> Result<u64, String> {
+    let mut start = init.to_vec();
+    // ifft: the truncated part of the input has to be zero for the result to be specified
+    if inv && trunc < size { for b in start[(pos + trunc) * len..(pos + size) * len].iter_mut() { *b = [0; 64]; } }
+    let run = |e: &dyn Engine| { let mut d = start.clone(); { let mut sh = ShardsRefMut::new(cntm, len, &mut d); if inv { e.ifft(&mut sh, pos, size, trunc, delta) } else { e.fft(&mut sh, pos, size, trunc, delta) } } d };
+    let a = run(&*es[0].1);
+    for (name, e) in &es[1..] {
+        let b = run(&**e);
+        // fft: shards [pos + truncated_size, pos + size) are unspecified garbage (the input there was not zero)
+        for s in 0..cntm { if (inv || s < pos + trunc || s >= pos + size) && a[s * len..(s + 1) * len] != b[s * len..(s + 1) * len] {
+            return Err(format!("{} {} vs nosimd size={} truncated_size={} pos={} skew_delta={} blocks={} shard={}", if inv { "ifft" } else { "fft" }, name, size, trunc, pos, delta, len, s)); } }
+    }
+    Ok(es.len() as u64 - 1)
+}
+
 fn engines(n: usize) -> bool {
     let mut rng = Rng::new(seed()); let mut cnt = 0u64;
+    macro_rules! tryf { ($e:expr) => { match $e { Ok(c) => cnt += c, Err(m) => { println!("FAIL engines {}", m); return false; } } } }
     for _ in 0..n {
         let k = 1 + rng.below(40); let r = 1 + rng.below(40); let sb = 2 * (1 + rng.below(100));
         let c = [Codec::High, Codec::Low, Codec::Default][rng.below(3)];
         if !codec_ok(c, k, r) { continue; }
-        let data = rand_data(&mut rng, k, sb);
-        let base = enc_with(c, NoSimd::new(), k, r, &data).unwrap();
-        let mut outs: Vec<(&str, Vec<Vec<u8>>)> = vec![("naive", enc_with(c, Naive::new(), k, r, &data).unwrap()), ("default", enc_with(c, DefaultEngine::new(), k, r, &data).unwrap())];
-        #[cfg(target_arch = "x86_64")]
-        { if is_x86_feature_detected!("ssse3") { outs.push(("ssse3", enc_with(c, Ssse3::new(), k, r, &data).unwrap())); }
-          if is_x86_feature_detected!("avx2") { outs.push(("avx2", enc_with(c, Avx2::new(), k, r, &data).unwrap())); } }
-        for (name, o) in &outs { if *o != base { println!("FAIL engines encode {} vs nosimd {:?} k={} r={} sb={}", name, c, k, r, sb); return false; } cnt += 1; }
-        // decode with a random sufficient subset on every engine
-        let mut idx: Vec<usize> = (0..k + r).collect(); for i in (1..idx.len()).rev() { let j = rng.below(i + 1); idx.swap(i, j); }
-        let take = &idx[..k];
-        let o: Vec<(usize, Vec<u8>)> = take.iter().filter(|&&i| i < k).map(|&i| (i, data[i].clone())).collect();
-        let rc: Vec<(usize, Vec<u8>)> = take.iter().filter(|&&i| i >= k).map(|&i| (i - k, base[i - k].clone())).collect();
-        let d0 = dec_with(c, NoSimd::new(), k, r, sb, &o, &rc).unwrap();
-        if d0.iter().any(|(i, d)| *d != data[*i]) { println!("FAIL engines decode nosimd wrong {:?} k={} r={} sb={}", c, k, r, sb); return false; }
-        let mut ds = vec![("naive", dec_with(c, Naive::new(), k, r, sb, &o, &rc).unwrap()), ("default", dec_with(c, DefaultEngine::new(), k, r, sb, &o, &rc).unwrap())];
-        #[cfg(target_arch = "x86_64")]
-        { if is_x86_feature_detected!("ssse3") { ds.push(("ssse3", dec_with(c, Ssse3::new(), k, r, sb, &o, &rc).unwrap())); }
-          if is_x86_feature_detected!("avx2") { ds.push(("avx2", dec_with(c, Avx2::new(), k, r, sb, &o, &rc).unwrap())); } }
-        for (name, d) in &ds { if *d != d0 { println!("FAIL engines decode {} vs nosimd {:?} k={} r={} sb={}", name, c, k, r, sb); return false; } cnt += 1; }
+        tryf!(engines_cfg(&mut rng, c, k, r, sb, false));
     }
-    // primitives: eval_poly and fft/ifft (truncated_size == size, the fully specified case)
+    // small configurations, among them decoder work areas of 2^odd shards (final odd fft/ifft layer), with a missing original
+    for (k, r) in [(3usize, 2usize), (2, 3), (7, 20), (30, 100), (40, 20), (5, 3), (60, 100)] { for c in [Codec::High, Codec::Low, Codec::Default] { for sb in [64usize, 130] {
+        if codec_ok(c, k, r) { tryf!(engines_cfg(&mut rng, c, k, r, sb, true)); }
+    } } }
+    let es = engine_list();
+    // Engine::mul on multi-block buffers
+    for t in 0..3 {
+        let blocks = [rng.below(6), 2 + rng.below(4), 1 + rng.below(5)][t]; let buf = rand_blocks(&mut rng, blocks);
+        for log_m in [rng.next() as u16, 0, 1, 65534, 65535] {
+            let mut a = buf.clone(); es[0].1.mul(&mut a, log_m);
+            for (name, e) in &es[1..] { let mut b = buf.clone(); e.mul(&mut b, log_m); if a != b { println!("FAIL engines mul {} vs nosimd blocks={} log_m={}", name, buf.len(), log_m); return false; } cnt += 1; }
+        }
+    }
+    // fft / ifft, deterministic sweep: every small size, aligned and unaligned position, every small skew_delta and the far end of the skew table, truncation
+    for size in [2usize, 4, 8, 16, 32, 64, 128] { for pos in [0usize, 3] { for len in [1usize, 2] {
+        let cntm = pos + size + 1; let init = rand_blocks(&mut rng, cntm * len);
+        let mut deltas: Vec<usize> = (0..=2 * size + 8).collect(); deltas.push(32765); if 65535 >= pos + size { deltas.push(65535 - pos - size); }
+        let mut ts = vec![1, size / 2 + 1, size]; ts.retain(|t| *t <= size); ts.sort(); ts.dedup();
+        for &delta in &deltas { if delta + size > 65536 { continue; } for inv in [false, true] { for &t in &ts { tryf!(fft_case(&es, &init, cntm, len, inv, pos, size, t, delta)); } } }
+    } } }
+    // eval_poly and random fft / ifft
     for _ in 0..n.min(50) {
         let mut e0 = [0u16; 65536]; let t = 1 + rng.below(65536); for i in 0..t { e0[i] = (rng.next() & 1) as u16; }
         let mut a = e0; NoSimd::eval_poly(&mut a, t);
-        let mut b = e0; Naive::eval_poly(&mut b, t); if a != b { println!("FAIL engines eval_poly naive t={}", t); return false; }
-        let mut b = e0; DefaultEngine::eval_poly(&mut b, t); if a != b { println!("FAIL engines eval_poly default t={}", t); return false; }
-        let size = 1usize << rng.below(7); let pos = size * rng.below(4); let len = 1 + rng.below(3); let cntm = pos + size; let delta = rng.below(1000);
-        let init: Vec<[u8; 64]> = (0..cntm * len).map(|_| { let mut x = [0u8; 64]; for b in x.iter_mut() { *b = rng.next() as u8; } x }).collect();
-        for inv in [false, true] {
-            let run = |e: &dyn Engine| { let mut d = init.clone(); { let mut sh = ShardsRefMut::new(cntm, len, &mut d); if inv { e.ifft(&mut sh, pos, size, size, delta) } else { e.fft(&mut sh, pos, size, size, delta) } } d };
-            let a = run(&NoSimd::new());
-            if run(&Naive::new()) != a || run(&DefaultEngine::new()) != a { println!("FAIL engines {} size={} pos={} delta={}", if inv { "ifft" } else { "fft" }, size, pos, delta); return false; }
-            cnt += 2;
-        }
+        each_engine!(name, mk, { let mut b = e0; eval_poly_of(&mk, &mut b, t); if a != b { println!("FAIL engines eval_poly {} t={}", name, t); return false; } cnt += 1; });
+        let size = 1usize << rng.below(7); let pos = size * rng.below(4); let len = 1 + rng.below(3); let cntm = pos + size + rng.below(2); let delta = rng.below(65537 - size);
+        let init = rand_blocks(&mut rng, cntm * len); let trunc = if rng.below(2) == 0 { size } else { 1 + rng.below(size) };
+        for inv in [false, true] { tryf!(fft_case(&es, &init, cntm, len, inv, pos, size, trunc, delta)); }
     }
     println!("OK engines {} comparisons (bounded)", cnt);
     true
 }
+fn eval_poly_of<E: Engine, F: Fn() -> E>(_mk: &F, e: &mut [u16; 65536], t: usize) { E::eval_poly(e, t) }
 
 // user-byte positions of symbol slot s of a shard of sb bytes: (low, high)
 fn slot_pos(sb: usize, s: usize) -> (usize, usize) { let b = s / 32; let l = s % 32; if b < sb / 64 { (64 * b + l, 64 * b + 32 + l) } else { let t = sb % 64; (64 * b + l, 64 * b + t / 2 + l) } }
@@ -297,10 +384,74 @@ fn sizes(max: usize) -> bool {
     true
 }
 
+// streaming references of the one-shot functions: exactly the documented call order
+fn stream_dec(k: usize, r: usize, o: &[(usize, Vec<u8>)], rc: &[(usize, Vec<u8>)]) -> Result<std::collections::HashMap<usize, Vec<u8>>, Error> {
+    if !ReedSolomonDecoder::supports(k, r) { return Err(Error::UnsupportedShardCount { original_count: k, recovery_count: r }); }
+    let sbx = if let Some(f) = rc.first() { f.1.len() } else if let Some(f) = o.first() { f.1.len() } else {
+        return Err(Error::NotEnoughShards { original_count: k, original_received_count: 0, recovery_received_count: 0 }) };
+    let mut d = ReedSolomonDecoder::new(k, r, sbx)?;
+    for (i, s) in o { d.add_original_shard(*i, s)?; }
+    for (i, s) in rc { d.add_recovery_shard(*i, s)?; }
+    let res = d.decode()?; Ok(res.restored_original_iter().map(|(i, s)| (i, s.to_vec())).collect())
+}
+fn stream_enc(k: usize, r: usize, e_in: &[Vec<u8>]) -> Result<Vec<Vec<u8>>, Error> {
+    if !ReedSolomonEncoder::supports(k, r) { return Err(Error::UnsupportedShardCount { original_count: k, recovery_count: r }); }
+    let Some(f) = e_in.first() else { return Err(Error::TooFewOriginalShards { original_count: k, original_received_count: 0 }) };
+    let mut e = ReedSolomonEncoder::new(k, r, f.len())?;
+    for s in e_in { e.add_original_shard(s)?; }
+    let res = e.encode()?; Ok(res.recovery_iter().map(|s| s.to_vec()).collect())
+}
+/// the items of v in order, with dropped decoys in between: filtering them out gives an iterator whose size_hint is not its length
+fn decoyed<T: Clone>(rng: &mut Rng, v: &[T], dummy: T) -> Vec<(bool, T)> {
+    let mut out = vec![];
+    for x in v { while rng.below(3) == 0 { out.push((false, dummy.clone())); } out.push((true, x.clone())); }
+    while rng.below(2) == 0 { out.push((false, dummy.clone())); }
+    out
+}
+/// one-shot decode(); inexact: through iterators that are not exact-size
+fn oneshot_dec(rng: &mut Rng, inexact: bool, k: usize, r: usize, o: &[(usize, Vec<u8>)], rc: &[(usize, Vec<u8>)]) -> Result<std::collections::HashMap<usize, Vec<u8>>, Error> {
+    if !inexact { return decode(k, r, o.iter().map(|(i, s)| (*i, s)), rc.iter().map(|(i, s)| (*i, s))); }
+    let dummy = (usize::MAX, vec![0xEEu8; 6]);
+    let (od, rd) = (decoyed(rng, o, dummy.clone()), decoyed(rng, rc, dummy));
+    decode(k, r, od.iter().filter(|x| x.0).map(|x| (x.1 .0, &x.1 .1)), rd.iter().filter(|x| x.0).map(|x| (x.1 .0, &x.1 .1)))
+}
+fn oneshot_enc(rng: &mut Rng, inexact: bool, k: usize, r: usize, e_in: &[Vec<u8>]) -> Result<Vec<Vec<u8>>, Error> {
+    if !inexact { return encode(k, r, e_in); }
+    let ed = decoyed(rng, e_in, vec![0xEEu8; 6]);
+    encode(k, r, ed.iter().filter(|x| x.0).map(|x| &x.1))
+}
+
 fn oneshot(n: usize) -> bool {
     let mut rng = Rng::new(seed()); let mut cnt = 0u64;
+    let lens = |x: &[(usize, Vec<u8>)]| x.iter().map(|x| (x.0, x.1.len())).collect::<Vec<_>>();
+    // deterministic sessions without recovery shards: more originals than original_count (duplicates, out of range),
+    // original_count != recovery_count with all / not all originals; expected outcome stated here and checked against the streaming API too
+    {
+        use Error::*;
+        let s: Vec<Vec<u8>> = (0..6).map(|_| rng.bytes(64)).collect(); let w = rng.bytes(62);
+        let o = |v: &[(usize, usize)]| v.iter().map(|&(i, d)| (i, if d == 9 { w.clone() } else { s[d].clone() })).collect::<Vec<_>>();
+        let dup = |i| Err(DuplicateOriginalShardIndex { index: i }); let inv = |k, i| Err(InvalidOriginalShardIndex { original_count: k, index: i });
+        let few = |k, g| Err(NotEnoughShards { original_count: k, original_received_count: g, recovery_received_count: 0 });
+        let sessions: Vec<(usize, usize, Vec<(usize, Vec<u8>)>, Result<(), Error>)> = vec![
+            (2, 1, o(&[(0, 0), (1, 1), (1, 2)]), dup(1)), (2, 1, o(&[(0, 0), (1, 1), (0, 2)]), dup(0)), (2, 1, o(&[(0, 0), (1, 1), (1, 1)]), dup(1)),
+            (2, 1, o(&[(1, 0), (1, 1)]), dup(1)), (2, 1, o(&[(0, 0), (0, 0)]), dup(0)), (2, 1, o(&[(0, 0), (1, 1), (1, 9)]), dup(1)),
+            (2, 1, o(&[(0, 0), (1, 1), (2, 2)]), inv(2, 2)), (2, 1, o(&[(0, 0), (1, 1), (usize::MAX, 2)]), inv(2, usize::MAX)), (2, 1, o(&[(0, 0), (3, 1)]), inv(2, 3)),
+            (1, 1, o(&[(0, 0), (0, 1)]), dup(0)), (1, 1, o(&[(0, 0), (0, 0)]), dup(0)), (1, 1, o(&[(0, 0), (1, 1)]), inv(1, 1)), (1, 1, o(&[(0, 0), (usize::MAX, 1)]), inv(1, usize::MAX)),
+            (1, 1, o(&[(1, 0)]), inv(1, 1)), (1, 3, o(&[(0, 0), (0, 1)]), dup(0)), (1, 3, o(&[(0, 0), (2, 1)]), inv(1, 2)), (1, 1, o(&[(0, 0)]), Ok(())), (1, 5, o(&[(0, 0)]), Ok(())),
+            (3, 1, o(&[(0, 0), (1, 1), (2, 2)]), Ok(())), (3, 1, o(&[(2, 0), (0, 1), (1, 2)]), Ok(())), (2, 5, o(&[(0, 0), (1, 1)]), Ok(())), (5, 2, o(&[(0, 0), (1, 1), (2, 2), (3, 3), (4, 4)]), Ok(())),
+            (3, 1, o(&[(0, 0)]), few(3, 1)), (3, 1, o(&[(2, 0), (0, 1)]), few(3, 2)), (2, 5, o(&[(1, 1)]), few(2, 1)), (5, 2, o(&[(0, 0), (1, 1), (2, 2), (4, 4)]), few(5, 4)), (4, 1, o(&[(0, 0), (1, 1), (2, 2)]), few(4, 3)),
+            (3, 1, o(&[(0, 0), (1, 1), (1, 2)]), dup(1)), (3, 1, o(&[(0, 0), (1, 1), (2, 2), (2, 3)]), dup(2)), (3, 1, o(&[(0, 0), (1, 1), (2, 2), (3, 3)]), inv(3, 3)),
+            (2, 1, o(&[(0, 0), (1, 9)]), Err(DifferentShardSize { shard_bytes: 64, got: 62 })), (2, 5, o(&[(1, 9), (0, 0)]), Err(DifferentShardSize { shard_bytes: 62, got: 64 })),
+        ];
+        for (k, r, o, want) in &sessions { for inexact in [false, true] {
+            let got = oneshot_dec(&mut rng, inexact, *k, *r, o, &[]); let st = stream_dec(*k, *r, o, &[]);
+            if got != st || got.as_ref().map(|m| m.len()).map_err(|e| *e) != want.map(|_| 0) { println!("FAIL oneshot decode (no recovery{}) k={} r={} originals={:?} got={:?} streaming={:?} want={:?}", if inexact { ", inexact iterators" } else { "" }, k, r, lens(o), got.as_ref().map(|m| m.len()), st.as_ref().map(|m| m.len()), want); return false; }
+            cnt += 1;
+        } }
+    }
     for _ in 0..n {
         let k = rng.below(6); let r = rng.below(6); let sb = [2usize, 4, 64, 66, 3, 0][rng.below(6)];
+        let inexact = rng.below(2) == 0;
         // a mostly valid session, perturbed
         let data = rand_data(&mut rng, k.max(1), if sb % 2 == 0 && sb > 0 { sb } else { 2 });
         let rec = if k >= 1 && r >= 1 { enc_with(Codec::Default, NoSimd::new(), k, r, &data).unwrap_or_default() } else { vec![] };
@@ -316,59 +467,75 @@ fn oneshot(n: usize) -> bool {
             6 => { rc.clear(); }                                                              // no recovery at all
             _ => {}
         }
-        for i in (1..o.len()).rev() { let j = rng.below(i + 1); o.swap(i, j); }
-        // streaming reference, exactly the documented call order
-        let stream_dec = || -> Result<std::collections::HashMap<usize, Vec<u8>>, Error> {
-            if !ReedSolomonDecoder::supports(k, r) { return Err(Error::UnsupportedShardCount { original_count: k, recovery_count: r }); }
-            let sbx = if let Some(f) = rc.first() { f.1.len() } else if let Some(f) = o.first() { f.1.len() } else {
-                return Err(Error::NotEnoughShards { original_count: k, original_received_count: 0, recovery_received_count: 0 }) };
-            let mut d = ReedSolomonDecoder::new(k, r, sbx)?;
-            for (i, s) in &o { d.add_original_shard(*i, s)?; }
-            for (i, s) in &rc { d.add_recovery_shard(*i, s)?; }
-            let res = d.decode()?; Ok(res.restored_original_iter().map(|(i, s)| (i, s.to_vec())).collect())
-        };
-        let want = stream_dec();
-        let got = decode(k, r, o.iter().map(|(i, s)| (*i, s)), rc.iter().map(|(i, s)| (*i, s)));
-        if got != want { println!("FAIL oneshot decode k={} r={} originals={:?} recovery={:?} got={:?} want={:?}", k, r, o.iter().map(|x| (x.0, x.1.len())).collect::<Vec<_>>(), rc.iter().map(|x| (x.0, x.1.len())).collect::<Vec<_>>(), got.as_ref().map(|m| m.len()), want.as_ref().map(|m| m.len())); return false; }
+        shuffle(&mut rng, &mut o);
+        let want = stream_dec(k, r, &o, &rc);
+        let got = oneshot_dec(&mut rng, inexact, k, r, &o, &rc);
+        if got != want { println!("FAIL oneshot decode{} k={} r={} originals={:?} recovery={:?} got={:?} want={:?}", if inexact { " (inexact iterators)" } else { "" }, k, r, lens(&o), lens(&rc), got.as_ref().map(|m| m.len()), want.as_ref().map(|m| m.len())); return false; }
         cnt += 1;
         // encode
         let mut e_in: Vec<Vec<u8>> = data.iter().take(k).cloned().collect();
         match rng.below(5) { 0 => { e_in.pop(); } 1 => { e_in.push(rng.bytes(2)); } 2 if !e_in.is_empty() => { let l = e_in.len() - 1; e_in[l] = rng.bytes(sb + 2); } 3 => { e_in.clear(); } _ => {} }
-        let stream_enc = || -> Result<Vec<Vec<u8>>, Error> {
-            if !ReedSolomonEncoder::supports(k, r) { return Err(Error::UnsupportedShardCount { original_count: k, recovery_count: r }); }
-            let Some(f) = e_in.first() else { return Err(Error::TooFewOriginalShards { original_count: k, original_received_count: 0 }) };
-            let mut e = ReedSolomonEncoder::new(k, r, f.len())?;
-            for s in &e_in { e.add_original_shard(s)?; }
-            let res = e.encode()?; Ok(res.recovery_iter().map(|s| s.to_vec()).collect())
-        };
-        let want = stream_enc(); let got = encode(k, r, &e_in);
-        if got != want { println!("FAIL oneshot encode k={} r={} sizes={:?} got={:?} want={:?}", k, r, e_in.iter().map(|x| x.len()).collect::<Vec<_>>(), got.as_ref().map(|m| m.len()), want.as_ref().map(|m| m.len())); return false; }
+        let want = stream_enc(k, r, &e_in); let got = oneshot_enc(&mut rng, inexact, k, r, &e_in);
+        if got != want { println!("FAIL oneshot encode{} k={} r={} sizes={:?} got={:?} want={:?}", if inexact { " (inexact iterator)" } else { "" }, k, r, e_in.iter().map(|x| x.len()).collect::<Vec<_>>(), got.as_ref().map(|m| m.len()), want.as_ref().map(|m| m.len())); return false; }
         cnt += 1;
     }
     println!("OK oneshot {} sessions (bounded)", cnt);
     true
 }
 
+/// two data sets of k shards of sb bytes for the linearity checks; kind 0 is random, the others are structured
+fn lin_data(rng: &mut Rng, kind: usize, k: usize, sb: usize) -> (Vec<Vec<u8>>, Vec<Vec<u8>>) {
+    let mut a = rand_data(rng, k, sb); let mut b = rand_data(rng, k, sb);
+    match kind {
+        1 => { for d in a.iter_mut().chain(b.iter_mut()) { for t in 0..sb { if t % 64 < 32 { d[t] = 0; } } } }                       // first half of every block zero
+        2 => { for i in 0..k { for t in 0..sb { if t % 64 < 32 { b[i][t] = a[i][t]; } else { b[i][t] = a[i][t] ^ (1 + rng.below(255)) as u8; } } } }  // first halves equal, second halves differ
+        3 => { for d in a.iter_mut().chain(b.iter_mut()) { d.fill(0); } a[rng.below(k)][rng.below(sb)] = 1 + rng.below(255) as u8; b[rng.below(k)][rng.below(sb)] = 1 + rng.below(255) as u8; } // a single non-zero byte
+        4 => { for i in 1..k { a[i] = a[0].clone(); b[i] = b[0].clone(); } }                                                         // all shards equal
+        5 => { let (x, y) = (rng.next() as u8, rng.next() as u8); for i in 0..k { a[i].fill(x); b[i].fill(y); } }                    // all bytes equal
+        _ => {}
+    }
+    (a, b)
+}
+/// encode random data, drop the result, then all-zero originals on the same object: the recovery must be all zero
+fn second_round_zero<E: Engine>(rng: &mut Rng, c: Codec, e: E, k: usize, r: usize, sb: usize) -> bool {
+    let data = rand_data(rng, k, sb);
+    macro_rules! run { ($t:ty) => {{ let mut x = <$t>::new(k, r, sb, e, None).unwrap();
+        for d in &data { x.add_original_shard(d).unwrap(); } { let res = x.encode().unwrap(); let _ = res.recovery(0).unwrap()[0]; }
+        for _ in 0..k { x.add_original_shard(vec![0u8; sb]).unwrap(); } let res = x.encode().unwrap();
+        let n = res.recovery_iter().count(); n == r && res.recovery_iter().all(|s| s.len() == sb && s.iter().all(|&v| v == 0)) }} }
+    match c { Codec::High => run!(HighRateEncoder<E>), Codec::Low => run!(LowRateEncoder<E>), Codec::Default => run!(DefaultRateEncoder<E>) }
+}
+
 fn linearity(n: usize, f: &Field) -> bool {
     let mut rng = Rng::new(seed()); let mut cnt = 0u64;
-    for _ in 0..n {
-        let k = 1 + rng.below(20); let r = 1 + rng.below(20); let sb = 2 * (1 + rng.below(70));
+    for it in 0..n {
+        let k = 1 + rng.below(20); let r = 1 + rng.below(20); let sb = if rng.below(2) == 0 { 2 * (1 + rng.below(70)) } else { [64usize, 128, 192, 66, 130, 32][rng.below(6)] };
         let c = [Codec::High, Codec::Low, Codec::Default][rng.below(3)];
         if !codec_ok(c, k, r) { continue; }
-        let a = rand_data(&mut rng, k, sb); let b = rand_data(&mut rng, k, sb);
+        let kind = if it % 2 == 0 { 0 } else { 1 + (it / 2) % 5 };
+        let (a, b) = lin_data(&mut rng, kind, k, sb);
         let x: Vec<Vec<u8>> = a.iter().zip(&b).map(|(p, q)| p.iter().zip(q).map(|(u, v)| u ^ v).collect()).collect();
-        let (ra, rb, rx) = (enc_with(c, NoSimd::new(), k, r, &a).unwrap(), enc_with(c, NoSimd::new(), k, r, &b).unwrap(), enc_with(c, NoSimd::new(), k, r, &x).unwrap());
-        for j in 0..r { for t in 0..sb { if rx[j][t] != ra[j][t] ^ rb[j][t] { println!("FAIL linearity additivity {:?} k={} r={} sb={} recovery={} byte={}", c, k, r, sb, j, t); return false; } } }
-        let z = enc_with(c, NoSimd::new(), k, r, &vec![vec![0u8; sb]; k]).unwrap();
-        if z.iter().any(|s| s.iter().any(|&v| v != 0)) { println!("FAIL linearity zero {:?} k={} r={} sb={}", c, k, r, sb); return false; }
         // scalar multiple: every symbol times the constant g (Cantor-index symbol), with the documented placement
         let g = (1 + rng.below(65535)) as u16;
         let scale = |d: &Vec<u8>| { let mut o = d.clone(); for s in 0..sb / 2 { let (lo, hi) = slot_pos(sb, s); let v = f.mul(d[lo] as u16 | ((d[hi] as u16) << 8), g); o[lo] = v as u8; o[hi] = (v >> 8) as u8; } o };
         let sa: Vec<Vec<u8>> = a.iter().map(scale).collect();
-        let rs = enc_with(c, NoSimd::new(), k, r, &sa).unwrap();
-        for j in 0..r { if rs[j] != scale(&ra[j]) { println!("FAIL linearity scalar {:?} k={} r={} sb={} g={} recovery={}", c, k, r, sb, g, j); return false; } }
-        cnt += 3;
+        each_engine!(name, mk, {
+            let at = format!("{} {:?} k={} r={} sb={} input-kind={}", name, c, k, r, sb, kind);
+            let (ra, rb, rx) = (enc_with(c, mk(), k, r, &a).unwrap(), enc_with(c, mk(), k, r, &b).unwrap(), enc_with(c, mk(), k, r, &x).unwrap());
+            for j in 0..r { for t in 0..sb { if rx[j][t] != ra[j][t] ^ rb[j][t] { println!("FAIL linearity additivity {} recovery={} byte={}", at, j, t); return false; } } }
+            let z = enc_with(c, mk(), k, r, &vec![vec![0u8; sb]; k]).unwrap();
+            if z.iter().any(|s| s.iter().any(|&v| v != 0)) { println!("FAIL linearity zero {}", at); return false; }
+            let rs = enc_with(c, mk(), k, r, &sa).unwrap();
+            for j in 0..r { if rs[j] != scale(&ra[j]) { println!("FAIL linearity scalar {} g={} recovery={}", at, g, j); return false; } }
+            if !second_round_zero(&mut rng, c, mk(), k, r, sb) { println!("FAIL linearity zero in the second round on the same encoder {}", at); return false; }
+            cnt += 4;
+        });
     }
+    // second round on the same encoder object, small configurations with a padded first chunk
+    for (k, r) in [(3usize, 4usize), (5, 8), (3, 3), (5, 7), (1, 1), (2, 3), (9, 5)] { for c in [Codec::Default, Codec::High, Codec::Low] { for sb in [64usize, 128, 2, 66] {
+        if !codec_ok(c, k, r) { continue; }
+        each_engine!(name, mk, { if !second_round_zero(&mut rng, c, mk(), k, r, sb) { println!("FAIL linearity zero in the second round on the same encoder {} {:?} k={} r={} sb={}", name, c, k, r, sb); return false; } cnt += 1; });
+    } } }
     println!("OK linearity {} checks (bounded)", cnt);
     true
 }
@@ -440,15 +607,211 @@ fn defects(which: &str) -> bool {
     ok
 }
 
+// ---------------------------------------------------------------- histories: one reused object vs fresh objects
+#[derive(Clone, Copy, PartialEq, Debug)]
+enum Kind { Rs, Def, High, Low }
+fn kind_codec(k: Kind) -> Codec { match k { Kind::Rs | Kind::Def => Codec::Default, Kind::High => Codec::High, Kind::Low => Codec::Low } }
+type Cfg = (usize, usize, usize);
+
+enum Enc { Rs(ReedSolomonEncoder), Def(DefaultRateEncoder<NoSimd>), High(HighRateEncoder<NoSimd>), Low(LowRateEncoder<NoSimd>) }
+macro_rules! enc_do { ($s:expr, $x:ident => $b:expr) => { match $s { Enc::Rs($x) => $b, Enc::Def($x) => $b, Enc::High($x) => $b, Enc::Low($x) => $b } } }
+impl Enc {
+    fn new(kind: Kind, (k, r, sb): Cfg, w: Option<EncoderWork>) -> Result<Enc, Error> {
+        Ok(match kind { Kind::Rs => Enc::Rs(ReedSolomonEncoder::new(k, r, sb)?), Kind::Def => Enc::Def(DefaultRateEncoder::new(k, r, sb, NoSimd::new(), w)?),
+            Kind::High => Enc::High(HighRateEncoder::new(k, r, sb, NoSimd::new(), w)?), Kind::Low => Enc::Low(LowRateEncoder::new(k, r, sb, NoSimd::new(), w)?) })
+    }
+    fn add(&mut self, s: &[u8]) -> Result<(), Error> { enc_do!(self, x => x.add_original_shard(s)) }
+    fn reset(&mut self, (k, r, sb): Cfg) -> Result<(), Error> { enc_do!(self, x => x.reset(k, r, sb)) }
+    /// recovery shards by the iterator; the flag says that recovery(i) agrees with it and is None from recovery_count on
+    fn encode(&mut self) -> Result<(Vec<Vec<u8>>, bool), Error> { enc_do!(self, x => { let res = x.encode()?; let v: Vec<Vec<u8>> = res.recovery_iter().map(|s| s.to_vec()).collect();
+        let acc = (0..v.len()).all(|i| res.recovery(i) == Some(&v[i][..])) && [v.len(), v.len() + 1, usize::MAX, usize::MAX - 1].iter().all(|&i| res.recovery(i).is_none()); Ok((v, acc)) }) }
+    fn into_work(self) -> EncoderWork { match self { Enc::Rs(_) => unreachable!(), Enc::Def(x) => x.into_parts().1, Enc::High(x) => x.into_parts().1, Enc::Low(x) => x.into_parts().1 } }
+}
+
+#[derive(PartialEq, Debug)]
+struct DecOut { iter: Vec<(usize, Vec<u8>)>, probe: Vec<(usize, Option<Vec<u8>>)> }
+enum Dec { Rs(ReedSolomonDecoder), Def(DefaultRateDecoder<NoSimd>), High(HighRateDecoder<NoSimd>), Low(LowRateDecoder<NoSimd>) }
+macro_rules! dec_do { ($s:expr, $x:ident => $b:expr) => { match $s { Dec::Rs($x) => $b, Dec::Def($x) => $b, Dec::High($x) => $b, Dec::Low($x) => $b } } }
+impl Dec {
+    fn new(kind: Kind, (k, r, sb): Cfg, w: Option<DecoderWork>) -> Result<Dec, Error> {
+        Ok(match kind { Kind::Rs => Dec::Rs(ReedSolomonDecoder::new(k, r, sb)?), Kind::Def => Dec::Def(DefaultRateDecoder::new(k, r, sb, NoSimd::new(), w)?),
+            Kind::High => Dec::High(HighRateDecoder::new(k, r, sb, NoSimd::new(), w)?), Kind::Low => Dec::Low(LowRateDecoder::new(k, r, sb, NoSimd::new(), w)?) })
+    }
+    fn add(&mut self, rec: bool, i: usize, s: &[u8]) -> Result<(), Error> { dec_do!(self, x => if rec { x.add_recovery_shard(i, s) } else { x.add_original_shard(i, s) }) }
+    fn reset(&mut self, (k, r, sb): Cfg) -> Result<(), Error> { dec_do!(self, x => x.reset(k, r, sb)) }
+    fn decode(&mut self, probes: &[usize]) -> Result<DecOut, Error> { dec_do!(self, x => { let res = x.decode()?;
+        Ok(DecOut { iter: res.restored_original_iter().map(|(i, s)| (i, s.to_vec())).collect(), probe: probes.iter().map(|&i| (i, res.restored_original(i).map(|s| s.to_vec()))).collect() }) }) }
+    fn into_work(self) -> DecoderWork { match self { Dec::Rs(_) => unreachable!(), Dec::Def(x) => x.into_parts().1, Dec::High(x) => x.into_parts().1, Dec::Low(x) => x.into_parts().1 } }
+}
+
+const HSIZES: [usize; 9] = [2, 4, 62, 64, 66, 100, 120, 128, 130];
+const HCOUNTS: [(usize, usize); 14] = [(3, 5), (5, 3), (5, 7), (7, 5), (3, 3), (3, 4), (5, 8), (2, 3), (3, 2), (1, 1), (1, 5), (6, 1), (9, 3), (3, 9)];
+/// the next configuration: often the same counts and the same number of 64-byte blocks with another size % 64
+fn pick_cfg(rng: &mut Rng, prev: Option<Cfg>, kind: Kind) -> Cfg {
+    loop {
+        let (k, r, sb) = match prev {
+            Some((k, r, sb)) if rng.below(2) == 0 => { let c: Vec<usize> = HSIZES.iter().copied().filter(|s| s.div_ceil(64) == sb.div_ceil(64) && *s != sb).collect();
+                (k, r, if c.is_empty() { sb } else { c[rng.below(c.len())] }) }
+            _ => { let (k, r) = match rng.below(8) { 0..=3 => HCOUNTS[rng.below(HCOUNTS.len())], 4..=6 => (1 + rng.below(12), 1 + rng.below(12)), _ => (1 + rng.below(40), 1 + rng.below(40)) };
+                (k, r, HSIZES[rng.below(HSIZES.len())]) } };
+        if codec_ok(kind_codec(kind), k, r) { return (k, r, sb); }
+    }
+}
+fn wrong_len(rng: &mut Rng, sb: usize) -> usize { [sb + 2, if sb > 2 { sb - 2 } else { sb + 4 }, sb + 64, sb - 1, sb + 1, 0][rng.below(6)] }
+/// a reset that must fail: unsupported counts, or supported counts (same, swapped, other) with an odd / zero shard size
+fn bad_reset(rng: &mut Rng, (k, r, sb): Cfg) -> (Cfg, Error) {
+    if rng.below(2) == 0 { let (k2, r2) = [(0, r), (k, 0), (0, 0), (65536, r), (40000, 40000), (k, 65536)][rng.below(6)]; ((k2, r2, sb), Error::UnsupportedShardCount { original_count: k2, recovery_count: r2 }) }
+    else { let (k2, r2) = [(k, r), (r, k), (2, 3), (3, 2)][rng.below(4)]; let s2 = [0, 1, sb + 1, 63, 65][rng.below(5)]; ((k2, r2, s2), Error::InvalidShardSize { shard_bytes: s2 }) }
+}
+macro_rules! expect_err { ($log:expr, $what:expr, $got:expr, $want:expr) => {{ let (g, w) = ($got, $want); $log.push(format!("!{}", $what)); if g != Some(w) { return Err(format!("{} returned {:?}, expected Err({:?})", $what, g.map(Err::<(), Error>).unwrap_or(Ok(())), w)); } }} }
+
+/// one encoder round on the reused object; Ok(false): abandoned without encode
+fn enc_round(rng: &mut Rng, log: &mut Vec<String>, obj: &mut Enc, kind: Kind, cfg: Cfg) -> Result<bool, String> {
+    let (k, r, sb) = cfg;
+    let data = rand_data(rng, k, sb);
+    let abandon = if rng.below(8) == 0 { Some(rng.below(k + 1)) } else { None };
+    for i in 0..=k {
+        if abandon == Some(i) { log.push(format!("add*{} abandon", i)); return Ok(false); }
+        // calls that must fail and must change nothing
+        while rng.below(6) == 0 { match rng.below(4) {
+            0 => { let l = wrong_len(rng, sb); let want = if i == k { Error::TooManyOriginalShards { original_count: k } } else { Error::DifferentShardSize { shard_bytes: sb, got: l } };
+                expect_err!(log, format!("add#{}(len {})", i, l), obj.add(&rng.bytes(l)).err(), want); }
+            1 if i == k => expect_err!(log, format!("add#{}", i), obj.add(&rng.bytes(sb)).err(), Error::TooManyOriginalShards { original_count: k }),
+            1 | 2 if i < k => expect_err!(log, format!("encode@{}", i), obj.encode().err(), Error::TooFewOriginalShards { original_count: k, original_received_count: i }),
+            _ => { let (c2, want) = bad_reset(rng, cfg); expect_err!(log, format!("reset{:?}@{}", c2, i), obj.reset(c2).err(), want); }
+        } }
+        if i < k { obj.add(&data[i]).map_err(|e| format!("add_original_shard #{} of {} returned {:?}", i, k, e))?; }
+    }
+    log.push(format!("add*{} encode", k));
+    let (got, acc) = obj.encode().map_err(|e| format!("encode returned {:?}", e))?;
+    if !acc { return Err("recovery(i) disagrees with recovery_iter() or is not None beyond recovery_count".into()); }
+    let mut fresh = Enc::new(kind, cfg, None).map_err(|e| format!("fresh encoder {:?}", e))?;
+    for d in &data { fresh.add(d).map_err(|e| format!("fresh encoder add {:?}", e))?; }
+    let (want, _) = fresh.encode().map_err(|e| format!("fresh encoder encode {:?}", e))?;
+    if got.len() != r || want.len() != r { return Err(format!("{} recovery shards, a fresh encoder gives {}, recovery_count is {}", got.len(), want.len(), r)); }
+    for j in 0..r { if got[j] != want[j] { let t = (0..got[j].len().min(want[j].len())).find(|&t| got[j][t] != want[j][t]);
+        return Err(format!("recovery shard {} differs from a fresh encoder's (lengths {} / {}, first differing byte {:?})", j, got[j].len(), want[j].len(), t)); } }
+    Ok(true)
+}
+
+fn check_dec(out: &DecOut, data: &[Vec<u8>], missing: &[usize], what: &str) -> Result<(), String> {
+    let idx: Vec<usize> = out.iter.iter().map(|x| x.0).collect();
+    if idx != missing { return Err(format!("{}: restored indexes {:?}, expected {:?}", what, idx, missing)); }
+    for (i, s) in &out.iter { if *s != data[*i] { return Err(format!("{}: restored original {} has wrong bytes (length {}, expected {})", what, i, s.len(), data[*i].len())); } }
+    for (i, s) in &out.probe { let want = if missing.contains(i) { Some(&data[*i]) } else { None };
+        if s.as_ref() != want { return Err(format!("{}: restored_original({}) is {}, expected {}", what, i, if s.is_some() { "Some(..)" } else { "None" }, if want.is_some() { "Some(original)" } else { "None" })); } }
+    Ok(())
+}
+
+/// one decoder round on the reused object; Ok(false): abandoned without decode
+fn dec_round(rng: &mut Rng, log: &mut Vec<String>, obj: &mut Dec, kind: Kind, cfg: Cfg) -> Result<bool, String> {
+    let (k, r, sb) = cfg;
+    let data = rand_data(rng, k, sb);
+    let rec = enc_with(kind_codec(kind), NoSimd::new(), k, r, &data).map_err(|e| format!("reference encode {:?}", e))?;
+    // a random sufficient subset in random order, the top indexes likely among it
+    let lo = k.saturating_sub(r); let go = match rng.below(6) { 0 => k, 1 => lo, _ => lo + rng.below(k - lo + 1) };
+    let need = k - go; let gr = if rng.below(2) == 0 { need } else { need + rng.below(r - need + 1) };
+    let mut oi: Vec<usize> = (0..k).collect(); shuffle(rng, &mut oi); let mut ri: Vec<usize> = (0..r).collect(); shuffle(rng, &mut ri);
+    if rng.below(2) == 0 { let p = oi.iter().position(|&i| i == k - 1).unwrap(); oi.swap(0, p); }
+    if rng.below(2) == 0 { let p = ri.iter().position(|&j| j == r - 1).unwrap(); ri.swap(0, p); }
+    let mut items: Vec<(bool, usize)> = oi[..go].iter().map(|&i| (false, i)).chain(ri[..gr].iter().map(|&j| (true, j))).collect(); shuffle(rng, &mut items);
+    let missing: Vec<usize> = (0..k).filter(|i| !oi[..go].contains(i)).collect();
+    let shard = |it: (bool, usize)| if it.0 { &rec[it.1] } else { &data[it.1] };
+    let show = |it: (bool, usize)| format!("{}{}", if it.0 { "r" } else { "o" }, it.1);
+    let big = [k, k + 1, k + 7, k.next_power_of_two(), r.next_power_of_two() + k, usize::MAX, usize::MAX - 1, usize::MAX - k, usize::MAX - r.next_power_of_two() + 1, usize::MAX / 2 + 1];
+    let probes: Vec<usize> = (0..k).chain(big.iter().copied().filter(|&i| i >= k)).collect();
+    let abandon = if rng.below(8) == 0 { Some(rng.below(items.len() + 1)) } else { None };
+    for p in 0..=items.len() {
+        if abandon == Some(p) { log.push(format!("add[{}] abandon", items[..p].iter().map(|&x| show(x)).collect::<Vec<_>>().join(","))); return Ok(false); }
+        // calls that must fail and must change nothing
+        while rng.below(5) == 0 { match rng.below(5) {
+            0 => { // wrong length on an index that has not been added (its correct add may follow later)
+                let rc = rng.below(2) == 0; let n = if rc { r } else { k }; let i = rng.below(n);
+                if !items[..p].contains(&(rc, i)) { let l = wrong_len(rng, sb);
+                    expect_err!(log, format!("add {}(len {})", show((rc, i)), l), obj.add(rc, i, &rng.bytes(l)).err(), Error::DifferentShardSize { shard_bytes: sb, got: l }); } }
+            1 if p > 0 => { let it = items[rng.below(p)]; let l = if rng.below(3) == 0 { wrong_len(rng, sb) } else { sb }; let s = if rng.below(2) == 0 && l == sb { shard(it).clone() } else { rng.bytes(l) };
+                expect_err!(log, format!("add {} again", show(it)), obj.add(it.0, it.1, &s).err(), if it.0 { Error::DuplicateRecoveryShardIndex { index: it.1 } } else { Error::DuplicateOriginalShardIndex { index: it.1 } }); }
+            2 => { let rc = rng.below(2) == 0; let n = if rc { r } else { k };
+                let i = [n, n + 1, n + rng.below(8), n.next_power_of_two(), k + r, usize::MAX, usize::MAX - 1, usize::MAX - n, usize::MAX - rng.below(70), usize::MAX / 2 + 1][rng.below(10)];
+                if i >= n { let l = if rng.below(4) == 0 { wrong_len(rng, sb) } else { sb };
+                    expect_err!(log, format!("add {}", show((rc, i))), obj.add(rc, i, &rng.bytes(l)).err(), if rc { Error::InvalidRecoveryShardIndex { recovery_count: r, index: i } } else { Error::InvalidOriginalShardIndex { original_count: k, index: i } }); } }
+            3 if p < k => { let oc = items[..p].iter().filter(|x| !x.0).count();
+                expect_err!(log, format!("decode@{}", p), obj.decode(&probes).err(), Error::NotEnoughShards { original_count: k, original_received_count: oc, recovery_received_count: p - oc }); }
+            _ => { let (c2, want) = bad_reset(rng, cfg); expect_err!(log, format!("reset{:?}@{}", c2, p), obj.reset(c2).err(), want); }
+        } }
+        if p < items.len() { let it = items[p]; obj.add(it.0, it.1, shard(it)).map_err(|e| format!("add {} (after {:?}) returned {:?}", show(it), items[..p].iter().map(|&x| show(x)).collect::<Vec<_>>(), e))?; }
+    }
+    log.push(format!("add[{}] decode", items.iter().map(|&x| show(x)).collect::<Vec<_>>().join(",")));
+    let got = obj.decode(&probes).map_err(|e| format!("decode returned {:?}", e))?;
+    check_dec(&got, &data, &missing, "decode")?;
+    let mut fresh = Dec::new(kind, cfg, None).map_err(|e| format!("fresh decoder {:?}", e))?;
+    for &it in &items { fresh.add(it.0, it.1, shard(it)).map_err(|e| format!("fresh decoder add {:?}", e))?; }
+    let want = fresh.decode(&probes).map_err(|e| format!("fresh decoder decode {:?}", e))?;
+    if got != want { return Err("result differs from a fresh decoder's".into()); }
+    // the result has been dropped: the same shards are accepted again and give the same result
+    shuffle(rng, &mut items);
+    log.push("again".into());
+    for (p, &it) in items.iter().enumerate() { obj.add(it.0, it.1, shard(it)).map_err(|e| format!("second add of {} after the result was dropped (after {:?}) returned {:?}", show(it), items[..p].iter().map(|&x| show(x)).collect::<Vec<_>>(), e))?; }
+    let got = obj.decode(&probes).map_err(|e| format!("second decode returned {:?}", e))?;
+    check_dec(&got, &data, &missing, "second decode")?;
+    Ok(true)
+}
+
+/// the configuration switch between two rounds: explicit reset, nothing (the dropped result has reset the object), or a move of the work space into another codec type
+macro_rules! history_of { ($T:ident, $round:ident, $rng:expr, $kind0:expr, $log:expr, $rounds:expr) => {{
+    let (rng, log): (&mut Rng, &mut Vec<String>) = ($rng, $log);
+    let mut kind: Kind = $kind0;
+    let mut cfg = pick_cfg(rng, None, kind);
+    log.push(format!("new{:?}", cfg));
+    let mut obj = $T::new(kind, cfg, None).map_err(|e| format!("new returned {:?}", e))?;
+    let mut clean = true;
+    for round in 0..2 + rng.below(5) {
+        if round > 0 {
+            if kind != Kind::Rs && rng.below(5) == 0 {
+                let nk = [Kind::Def, Kind::High, Kind::Low][rng.below(3)]; let ncfg = pick_cfg(rng, Some(cfg), nk);
+                log.push(format!("into_parts->{:?}::new{:?}", nk, ncfg));
+                obj = $T::new(nk, ncfg, Some(obj.into_work())).map_err(|e| format!("new with the old work space returned {:?}", e))?; kind = nk; cfg = ncfg;
+            } else {
+                let ncfg = if rng.below(4) == 0 { cfg } else { pick_cfg(rng, Some(cfg), kind) };
+                if ncfg != cfg || !clean || rng.below(3) == 0 { log.push(format!("reset{:?}", ncfg)); obj.reset(ncfg).map_err(|e| format!("reset returned {:?}", e))?; cfg = ncfg; } else { log.push("keep".into()); }
+            }
+        }
+        clean = $round(rng, log, &mut obj, kind, cfg)?;
+        *$rounds += 1;
+    }
+    Ok(())
+}} }
+fn history(rng: &mut Rng, kind: Kind, dec: bool, log: &mut Vec<String>, rounds: &mut u64) -> Result<(), String> {
+    if dec { history_of!(Dec, dec_round, rng, kind, log, rounds) } else { history_of!(Enc, enc_round, rng, kind, log, rounds) }
+}
+
+fn histories(n: usize) -> bool {
+    let mut master = Rng::new(seed()); let mut rounds = 0u64;
+    for h in 0..n {
+        let mut rng = Rng(master.next() | 1);
+        let kind = [Kind::Rs, Kind::Def, Kind::High, Kind::Low][rng.below(4)]; let dec = rng.below(2) == 0;
+        let layer = format!("{}{}", ["ReedSolomon", "DefaultRate", "HighRate", "LowRate"][kind as usize], if dec { "Decoder" } else { "Encoder" });
+        let mut log: Vec<String> = vec![];
+        let res = std::panic::catch_unwind(std::panic::AssertUnwindSafe(|| history(&mut rng, kind, dec, &mut log, &mut rounds)));
+        let what = match res { Ok(Ok(())) => continue, Ok(Err(m)) => m, Err(_) => "panic (message in the line above)".into() };
+        println!("FAIL histories {} history #{}: {} :: {}", layer, h, log.join(" "), what);
+        return false;
+    }
+    println!("OK histories {} rounds over {} histories (bounded)", rounds, n);
+    true
+}
+
 fn main() {
     let a: Vec<String> = std::env::args().collect();
     let f = Field::new();
     let num = |i: usize, d: usize| a.get(i).and_then(|s| s.parse().ok()).unwrap_or(d);
-    // a panic inside the real crate is a finding (C06: no panics), reported like any other failure
-    std::panic::set_hook(Box::new(|info| { println!("FAIL panic in the crate under test: {}", info.to_string().replace('\n', " ")); }));
-    let ok = std::panic::catch_unwind(|| match a.get(1).map(|s| s.as_str()) {
+    // "valid use never panics / never fails" is part of what these commands check: there a panic of the crate is their own failure (exit 1);
+    // elsewhere a panic or an unexpected Err while a stand-in sets up its scenario is trouble outside its oracle (PANIC line, exit 3)
+    let own = matches!(a.get(1).map(|s| s.as_str()), Some("defects" | "roundtrip" | "histories" | "oneshot"));
+    std::panic::set_hook(Box::new(move |info| { let m = info.to_string().replace('\n', " "); if own { println!("FAIL panic in the crate under test: {}", m); } else { println!("PANIC {}", m); } }));
+    let res = std::panic::catch_unwind(|| match a.get(1).map(|s| s.as_str()) {
         Some("kernels") => kernels_all(a.get(2).map(|s| s.as_str()).unwrap_or("all"), num(3, 65536), &f),
-        Some("tables") => tables(&f),
+        Some("tables") => if a.get(2).map(|s| s.as_str()) == Some("skew") { tables_skew(&f) } else { tables(&f) },
         Some("defects") => defects(a.get(2).map(|s| s.as_str()).unwrap_or("all")),
         Some("closedform") => { let w = a.get(2).map(|s| s.as_str()).unwrap_or("both"); let (k, r) = (num(3, 8), num(4, 8));
             (w == "low" || closedform(&f, true, k, r)) && (w == "high" || closedform(&f, false, k, r)) },
@@ -457,8 +820,9 @@ fn main() {
         Some("sizes") => sizes(num(2, 130)),
         Some("oneshot") => oneshot(num(2, 300)),
         Some("linearity") => linearity(num(2, 100), &f),
+        Some("histories") => histories(num(2, 300)),
         Some("alloc") => alloc(num(2, 20)),
-        _ => { println!("usage: vnative kernels|tables|closedform|roundtrip|engines|sizes|oneshot|linearity|alloc|defects ..."); false }
-    }).unwrap_or(false);
-    std::process::exit(if ok { 0 } else { 1 });
+        _ => { println!("usage: vnative kernels|tables|closedform|roundtrip|engines|sizes|oneshot|linearity|histories|alloc|defects ..."); false }
+    });
+    std::process::exit(match res { Ok(true) => 0, Ok(false) => 1, Err(_) => if own { 1 } else { 3 } });
 }
